@@ -98,9 +98,9 @@ func (d *memDB) IterateEntries(ents []pb.Entry, size uint64, shardID uint64,
 
 var errNotUsed = errors.New("memDB: method not used by LogReader")
 
-func (d *memDB) Name() string                       { return "verif-memdb" }
-func (d *memDB) Close() error                       { return nil }
-func (d *memDB) BinaryFormat() uint32               { return raftio.PlainLogDBBinVersion }
+func (d *memDB) Name() string                             { return "verif-memdb" }
+func (d *memDB) Close() error                             { return nil }
+func (d *memDB) BinaryFormat() uint32                     { return raftio.PlainLogDBBinVersion }
 func (d *memDB) ListNodeInfo() ([]raftio.NodeInfo, error) { return nil, errNotUsed }
 func (d *memDB) SaveBootstrapInfo(uint64, uint64, pb.Bootstrap) error {
 	return errNotUsed
@@ -123,7 +123,7 @@ func (d *memDB) SaveSnapshots([]pb.Update) error { return errNotUsed }
 func (d *memDB) GetSnapshot(uint64, uint64) (pb.Snapshot, error) {
 	return pb.Snapshot{}, errNotUsed
 }
-func (d *memDB) RemoveNodeData(uint64, uint64) error       { return errNotUsed }
+func (d *memDB) RemoveNodeData(uint64, uint64) error      { return errNotUsed }
 func (d *memDB) ImportSnapshot(pb.Snapshot, uint64) error { return errNotUsed }
 
 // nopCompactor satisfies pb.ICompactor (snapshot ref counting in LogReader).
